@@ -7,6 +7,7 @@
   are the `prev_pos` / `prev_attrs` the loop returns, and nothing else on the receiver has changed.
 -/
 import Vt.Props.RowDraw
+import Vt.Props.PenWf
 namespace Vt.GridDraw
 open Vt Vt.Recv Vt.C19 Vt.C09 Vt.RowDraw
 set_option linter.unusedSimpArgs false
@@ -145,8 +146,12 @@ theorem rows_step (hW : WOk W) (p0 : Parser) (h0 : Ready p0) {srows : List Row} 
     (hinv : RowsInv srows cols i wrapping pp R) (hem : Emitted W cb p0 out R) :
     ∃ bs np na R', srows[i].writeContentsFormatted 0 cols i wrapping (some pp) (some R.pen) = .ok (bs, np, na) ∧
       Emitted W cb p0 (out ++ bs) R' ∧ R'.pen = na ∧ RowsInv srows cols (i + 1) srows[i].wrapped np R' ∧
-      R'.g.scrollbackOffset = R.g.scrollbackOffset := by
+      R'.g.scrollbackOffset = R.g.scrollbackOffset ∧ (Attrs.wf R.pen → Attrs.wf na) := by
   have hmem : srows[i] ∈ srows := List.getElem_mem hi
+  have hcwf : ∀ c ∈ srows[i].cells, Attrs.wf c.attrs := by
+    intro c hc
+    obtain ⟨k, hk, rfl⟩ := List.getElem_of_mem hc
+    exact (hS.ok _ hmem).wf k hk
   have hwd := hS.width _ hmem
   obtain ⟨Ri0, hRi0, _, hblank⟩ := hinv.row i hi
   have hbl := (hblank (Nat.le_refl _)).line srows[i].cells hwd
@@ -183,7 +188,8 @@ theorem rows_step (hW : WOk W) (p0 : Parser) (h0 : Ready p0) {srows : List Row} 
       (by rw [hrs, hinv.pos, hinv.hcols]; exact hpp)
     rw [hrs, hinv.pos, hwd] at hrow
     obtain ⟨bs, np, na, ewc, ⟨Ri, hemr, hfull⟩, hnp⟩ := hrow
-    refine ⟨bs, np, na, shape (wrapBase R i Rp) i Ri np na, ewc, emitted_comp h0 e1 w1 r1 hemr, rfl, ?_, rfl⟩
+    refine ⟨bs, np, na, shape (wrapBase R i Rp) i Ri np na, ewc, emitted_comp h0 e1 w1 r1 hemr, rfl, ?_, rfl,
+      fun h => wcf_pen_wf srows[i] hcwf 0 cols i true pp R.pen h ewc⟩
     refine rowsInv_next hS hi hinv hfull hnp rfl rfl rfl rfl (by simp [shape, wrapBase]) rfl ?_ ?_
     · rw [shape_rows_get]; simp [wrapBase, hil]
     · intro k hk
@@ -204,7 +210,8 @@ theorem rows_step (hW : WOk W) (p0 : Parser) (h0 : Ready p0) {srows : List Row} 
       srows[i] (by rw [hrs, hinv.hcols]; exact hwd) (hS.ok _ hmem) Ri0 (by rw [hrs]; exact hRi0) hbl
     rw [hrs, hinv.pos, hwd] at hrow
     obtain ⟨bs, np, na, ewc, ⟨Ri, hemr, hfull⟩, hnp⟩ := hrow
-    refine ⟨bs, np, na, shape R i Ri np na, ewc, emitted_comp h0 e1 w1 r1 hemr, rfl, ?_, rfl⟩
+    refine ⟨bs, np, na, shape R i Ri np na, ewc, emitted_comp h0 e1 w1 r1 hemr, rfl, ?_, rfl,
+      fun h => wcf_pen_wf srows[i] hcwf 0 cols i false pp R.pen h ewc⟩
     refine rowsInv_next hS hi hinv hfull hnp rfl rfl rfl rfl (by simp [shape]) rfl ?_ ?_
     · rw [shape_rows_get]; simp [hil]
     · intro k hk
@@ -219,7 +226,7 @@ theorem rows_loop (hW : WOk W) (p0 : Parser) (h0 : Ready p0) {srows : List Row} 
     RowsInv srows cols i wrapping pp R → Emitted W cb p0 out R →
     ∃ out' pp' pa' R', Grid.fmtRowsLoop cols rs i wrapping pp R.pen out = .ok (out', pp', pa') ∧
       Emitted W cb p0 out' R' ∧ R'.pen = pa' ∧ RowsInv srows cols srows.length false pp' R' ∧
-      R'.g.scrollbackOffset = R.g.scrollbackOffset
+      R'.g.scrollbackOffset = R.g.scrollbackOffset ∧ (Attrs.wf R.pen → Attrs.wf pa')
   | [], i, wrapping, pp, out, R, hrs, hil, hwv, hw0, hinv, hem => by
     have hi : i = srows.length := by
       have := congrArg List.length hrs
@@ -234,7 +241,7 @@ theorem rows_loop (hW : WOk W) (p0 : Parser) (h0 : Ready p0) {srows : List Row} 
         rw [List.getLast?_eq_getElem?]
         exact List.getElem?_eq_getElem (by omega)
     subst hwf
-    exact ⟨out, pp, R.pen, R, rfl, hem, rfl, hinv, rfl⟩
+    exact ⟨out, pp, R.pen, R, rfl, hem, rfl, hinv, rfl, id⟩
   | r :: rest, i, wrapping, pp, out, R, hrs, hil, hwv, hw0, hinv, hem => by
     have hi : i < srows.length := by
       have := congrArg List.length hrs
@@ -248,10 +255,10 @@ theorem rows_loop (hW : WOk W) (p0 : Parser) (h0 : Ready p0) {srows : List Row} 
     have hrest : srows.drop (i + 1) = rest := by
       have := congrArg List.tail hrs
       simpa [List.tail_drop] using this
-    obtain ⟨bs, np, na, R1, ewc, hem1, hpen1, hinv1, hoff1⟩ := rows_step hW p0 h0 hS hi hinv hem
-    obtain ⟨out', pp', pa', R', e', hem', hpen', hinv', hoff'⟩ := rows_loop hW p0 h0 hS rest (i + 1) srows[i].wrapped np
+    obtain ⟨bs, np, na, R1, ewc, hem1, hpen1, hinv1, hoff1, hwf1⟩ := rows_step hW p0 h0 hS hi hinv hem
+    obtain ⟨out', pp', pa', R', e', hem', hpen', hinv', hoff', hwf'⟩ := rows_loop hW p0 h0 hS rest (i + 1) srows[i].wrapped np
       (out ++ bs) R1 hrest (by omega) (fun _ => by simp) (fun h => by omega) hinv1 hem1
-    refine ⟨out', pp', pa', R', ?_, hem', hpen', hinv', hoff'.trans hoff1⟩
+    refine ⟨out', pp', pa', R', ?_, hem', hpen', hinv', hoff'.trans hoff1, fun h => hwf' (hpen1 ▸ hwf1 h)⟩
     rw [← hr]
     simp only [Grid.fmtRowsLoop, ewc, ok_bind]
     rw [← hpen1]
